@@ -134,6 +134,18 @@ pub fn monitor(out: &RunOut) -> MonOut {
                 }
                 Kind::Policy(PolicyRec::ComputeNext { apps, .. }) | Kind::Policy(PolicyRec::CheckAllowed { apps, .. }) => {
                     skip_r1 = false;
+                    if ping_commit_due.is_some() {
+                        // a successful ping whose answer the library has not written to the app set by its
+                        // next policy question: the record must show it all the same
+                        if let (Some(md), Some(Some(doc))) = (&mut model, pending_doc.take()) {
+                            if unique_ids(&doc) {
+                                m.count("R4.ping_answer_not_written");
+                                apply_doc(md, &doc);
+                            } else {
+                                resync = true;
+                            }
+                        }
+                    }
                     if let (Some(at), Some(md), false) = (ping_commit_due.take(), &model, resync) {
                         // R3 for pings: a commit must have followed the ping
                         let last_probe: Option<Vec<AppState>> = (at..i).rev().find_map(|j| match &h[j].kind {
